@@ -167,6 +167,8 @@ impl Recorder {
 			"timer_fired" => rec.rec(Ev::new("timer_fired").x(a as i64).flag(b)),
 			"loop_exit" => rec.rec(Ev::new("loop_exit")),
 			"recv" => rec.rec(Ev::new("recv").id(b as i64).x(a as i64)),
+			// the steps inside Flag::poll / Flag::raise are the alphabet of Flag.tla (flag_driver) only
+			other if other.starts_with("flag_") => {}
 			other => rec.rec(Ev::new(other).x(a as i64).n(b as i64)),
 		})
 	}
